@@ -566,8 +566,12 @@ class ParserBinary(ParserBase):
         else:
             pad_bytes = b''
 
-        parsable = pad_bytes + self._parsable[self._parsed_length + mpint_offset:]
-        parser = ParserBinary(parsable)
+        parsable = self._parsable[self._parsed_length + mpint_offset:]
+        if mpint_offset == 0 and self.byte_order in [ByteOrder.LITTLE_ENDIAN, ByteOrder.NATIVE] and \
+                len(parsable) >= mpint_length:
+            # a fixed-length integer of a little-endian format has its least significant octet first
+            parsable = bytes(bytearray(parsable[:mpint_length])[::-1])
+        parser = ParserBinary(pad_bytes + parsable)
         parser.parse_numeric_array('mpint_part_array', (mpint_length + len(pad_bytes)) // 4, 4, int)
 
         value = 0
@@ -901,7 +905,7 @@ class ComposerBinary(ComposerBase):
         self._compose_numeric_array([flag, ], item_size)
 
     @staticmethod
-    def _compose_mpint(value, length, byte_order):
+    def _compose_mpint(value, length):
         negative = value < 0
 
         if negative:
@@ -913,20 +917,17 @@ class ComposerBinary(ComposerBase):
         for mpint_offset in range(0, length * 32, 32):
             value_numeric_array.append(positive_value >> mpint_offset & 0xffffffff)
 
-        composer = ComposerBinary(byte_order=byte_order)
+        # most significant octet first, without leading zero octets; the caller orders and pads them
+        composer = ComposerBinary()
         composer.compose_numeric_array(reversed(value_numeric_array), 4)
 
-        mpint_bytes = composer.composed_bytes.lstrip(b'\x00')
-        if byte_order in [ByteOrder.LITTLE_ENDIAN, ByteOrder.NATIVE]:
-            mpint_bytes = mpint_bytes.rstrip(b'\x00')
-
-        return mpint_bytes
+        return composer.composed_bytes.lstrip(b'\x00')
 
     def compose_mpint(self, value, length):
         if value.bit_length() > 8 * length:
             raise InvalidValue(length, type(self), 'mpint_length')
 
-        mpint_bytes = self._compose_mpint(value, length, self.byte_order)
+        mpint_bytes = self._compose_mpint(value, length)
         if length < len(mpint_bytes):
             raise InvalidValue(length, type(self), 'mpint_length')
 
@@ -935,7 +936,7 @@ class ComposerBinary(ComposerBase):
             self.compose_raw((length - len(mpint_bytes)) * pad_byte)
             self.compose_raw(mpint_bytes)
         else:
-            self.compose_raw(mpint_bytes)
+            self.compose_raw(mpint_bytes[::-1])
             self.compose_raw((length - len(mpint_bytes)) * pad_byte)
 
     def compose_ssh_mpint(self, value):
@@ -945,7 +946,7 @@ class ComposerBinary(ComposerBase):
         if bit_length % 32:
             length += 1
 
-        mpint_bytes = self._compose_mpint(value, length, self.byte_order)
+        mpint_bytes = self._compose_mpint(value, length)
 
         if mpint_bytes and bool(mpint_bytes[0] & 0x80) != negative:
             pad_byte = b'\xff' if negative else b'\x00'
